@@ -36,6 +36,8 @@ DEFAULTS = {
     'sample_rate': 100.0,
     'profile': None,           # per-template amplitude level permutations (list of lists) or None
     'spike_samples': None,     # explicit list or None
+    'sparse_cols': None,       # explicit (n_templates, n_loc) column table (may contain -1)
+    'sparse_zero': None,       # per template: index of an all-zero stored column, or None
     'tsv': {},                 # extra per-cluster TSV files {name: {'field': f, 'values': {id: v}}}
     'fill': 0,
 }
@@ -209,15 +211,37 @@ def make_dataset(d, spec=None):
     T = default_templates(nt, nsw, nc, fill, s['profile'])
     if s['content'] == 'nan_template':
         T[nt - 1] = np.nan
-    if sparse_t:
+    if sparse_t and s['sparse_cols'] is not None:
+        cols = np.array(s['sparse_cols'], dtype=np.int32)
+        nloc = cols.shape[1]
+        data = np.zeros((nt, nsw, nloc), dtype=np.float32)
+        Tfull = np.zeros_like(T)
+        for t in range(nt):
+            for j in range(nloc):
+                zero = s['sparse_zero'] is not None and s['sparse_zero'][t] == j
+                if cols[t, j] != -1 and not zero:
+                    data[t][:, j] = T[t][:, cols[t, j]]
+                    Tfull[t][:, cols[t, j]] = T[t][:, cols[t, j]]
+                elif cols[t, j] == -1 and t % 2 == 1:
+                    # an unused (-1) column is not guaranteed to hold zeros: leave garbage in it
+                    data[t][:, j] = T[t][:, (t + j) % nc] * 0.5 + 0.25
+        T = Tfull     # the dense equivalent: zero on channels that are not stored
+        truth['templates_data'] = data
+        truth['templates_cols'] = cols
+        save('templates.waveforms.npy' if alf else 'templates.npy', data)
+        save('templates.waveformsChannels.npy' if alf else 'template_ind.npy', cols)
+    elif sparse_t:
         nloc = min(nc, 3)
         cols = np.zeros((nt, nloc), dtype=np.int32)
         data = np.zeros((nt, nsw, nloc), dtype=np.float32)
+        Tfull = np.zeros_like(T)
         for t in range(nt):
             amp = np.nan_to_num(T[t].max(axis=0) - T[t].min(axis=0))
             order = np.argsort(-amp, kind='stable')[:nloc]
             cols[t] = order
             data[t] = T[t][:, order]
+            Tfull[t][:, order] = T[t][:, order]
+        T = Tfull
         truth['templates_data'] = data
         truth['templates_cols'] = cols
         save('templates.waveforms.npy' if alf else 'templates.npy', data)
